@@ -7,6 +7,7 @@ import (
 	"go/types"
 	"sort"
 	"strings"
+	"sync"
 
 	"golang.org/x/tools/go/ssa"
 )
@@ -74,6 +75,8 @@ type FuncCtx struct {
 	globalIdx, funcIdx, inlineSeq, pureSeq, qcount, havocSeq int
 	heapKeys map[string]HeapKey
 	localObjs []localObj
+	noUserInv bool
+	mu       sync.Mutex
 	addingAxioms bool
 	axiomDone map[int]bool
 	rootFn   *ssa.Function
@@ -209,12 +212,12 @@ func (c *FuncCtx) prelude() []string {
 	}
 	if c.mode == ModeInt {
 		p = append(p,
-			"(assert (forall ((s Str)) (! (>= (slen s) 0) :pattern ((slen s)))))",
+			"(assert (forall ((s Str)) (! (and (>= (slen s) 0) (< (slen s) 140737488355328)) :pattern ((slen s)))))",
 			"(assert (forall ((s Str)) (! (=> (= (slen s) 0) (= s str_empty)) :pattern ((slen s)))))",
 			"(assert (forall ((s Str) (i Int)) (! (and (<= 0 (sat s i)) (< (sat s i) 256)) :pattern ((sat s i)))))",
 			"(define-fun tdiv ((x Int) (y Int)) Int (ite (>= x 0) (ite (> y 0) (div x y) (- (div x (- y)))) (ite (> y 0) (- (div (- x) y)) (div (- x) (- y)))))",
 			"(define-fun trem ((x Int) (y Int)) Int (- x (* y (tdiv x y))))",
-			"(define-fun wf_slice ((s Slice)) Bool (and (<= 0 (s_off s)) (<= 0 (s_len s)) (<= (s_len s) (s_cap s)) (=> (= (s_ref s) 0) (= (s_cap s) 0))))",
+			"(define-fun wf_slice ((s Slice)) Bool (and (<= 0 (s_off s)) (<= 0 (s_len s)) (<= (s_len s) (s_cap s)) (< (s_cap s) 140737488355328) (< (s_off s) 140737488355328) (=> (= (s_ref s) 0) (= (s_cap s) 0))))",
 		)
 	} else {
 		p = append(p,
@@ -281,7 +284,12 @@ func (c *FuncCtx) depsOf(i int) []string {
 }
 
 // buildQuery assembles the SMT-LIB text for one obligation.
-func (c *FuncCtx) buildQuery(o *Obligation, withModel bool) string {
+func (c *FuncCtx) buildQuery(o *Obligation, withModel bool) string { return c.buildQueryOpt(o, withModel, false) }
+
+// buildQueryOpt: relaxed drops the quantified axioms (used to look for candidate models when the full query is undecided).
+func (c *FuncCtx) buildQueryOpt(o *Obligation, withModel bool, relaxed bool) string {
+	c.mu.Lock()
+	defer c.mu.Unlock()
 	include := map[int]bool{}
 	var work []string
 	addSyms := func(text string) {
@@ -342,6 +350,9 @@ func (c *FuncCtx) buildQuery(o *Obligation, withModel bool) string {
 	}
 	b.WriteString("(set-logic ALL)\n")
 	for _, l := range c.prelude() {
+		if relaxed && strings.HasPrefix(l, "(assert (forall") {
+			continue
+		}
 		b.WriteString(l)
 		b.WriteByte('\n')
 	}
@@ -350,6 +361,9 @@ func (c *FuncCtx) buildQuery(o *Obligation, withModel bool) string {
 		b.WriteByte('\n')
 	}
 	for _, i := range idxs {
+		if relaxed && c.defs[i].Axiom && strings.Contains(c.defs[i].Text, "(forall") {
+			continue
+		}
 		b.WriteString(c.defs[i].Text)
 		b.WriteByte('\n')
 	}
